@@ -171,7 +171,7 @@ def dictionary_entries_read_back_whatever_their_value(ctx, n, nkeys, rich):
 # (Without a None numpy promotes [1, 2.5] to float and nothing is lost; [None, 2.5, 1] is stored as float: fine.)
 # While the flag is True the value obligation is not stated for exactly that pattern (an integer first, a number with
 # a fractional part after it).
-KNOWN_DEFECT_first_value_decides_the_stored_number_type = True
+KNOWN_DEFECT_first_value_decides_the_stored_number_type = False  # repaired in /repo (fix: 975def6)
 
 MIXED_SLOT = {"unset": None, "int": 3, "whole float": 4.0, "float": 2.5, "numpy float": np.float64(-1.5),
               "numpy int": np.int64(7), "negative int": -2}
